@@ -176,7 +176,9 @@ func runE6(t *testing.T, prof e6Profile) {
 	})
 }
 
-var famE6C01 = set("linearizability-violated", "write-applied-twice", "replicas-applied-different-entries")
+// (a snapshot whose content is not the state at the index it is stamped with makes
+// acknowledged writes disappear or come back after a restart from it)
+var famE6C01 = set("linearizability-violated", "write-applied-twice", "replicas-applied-different-entries", "snapshot-content-not-at-snapshot-index")
 var famE6C04 = set("term-not-durable", "vote-not-durable", "ack-not-durable", "commit-advertised-before-durable",
 	"two-votes-one-term", "recovered-term-lower", "restart-failed", "restart-panics-commit-outside-log-range", "linearizability-violated", "completed-request-never-applied")
 var famE6C11 = set("call-after-close", "exclusive-calls-overlap", "update-index-not-increasing", "ondisk-update-at-or-below-open-index",
